@@ -136,7 +136,8 @@ Section G.
     mkG (g_staking g) (g_votes g) (g_results g) (g_names g) (g_names g) (g_ent g).
 
   (** one successfully executed governance transaction (a failed one leaves the state unchanged),
-      or a block boundary.  [upd_small]: the records written are shorter than 2^32 bytes. *)
+      or a block boundary.  [upd_small]: the records written are shorter than 2^32 bytes; [upd_bounded]: the amounts
+      written are short (bounded by the total supply). *)
   Inductive step (g : gstate) : gstate -> Prop :=
   | step_block : step g (next_block g)
   | step_system : forall acct se e t ci cx u,
@@ -144,7 +145,7 @@ Section G.
       tx_ci t = Some ci ->
       system_validate (tx_ci t) (tx_amount t) (sys_view g acct se) = Ok cx ->
       system_run ci cx (tx_amount t) (sys_view g acct se) (run_view g) = Ok u ->
-      upd_small u -> step g (apply_upd g acct u)
+      upd_small u -> upd_bounded u -> step g (apply_upd g acct u)
   | step_name : forall acct se t owner_choice n raw,
       small acct -> small owner_choice ->
       name_exec t (name_view g se) = Ok tt ->
